@@ -568,6 +568,12 @@ func sortedTasks(tasks map[string]*Task) []*Task {
 
 func sortByCreatedAt(tasks []*Task) {
 	sort.Slice(tasks, func(i, j int) bool {
+		if tasks[i].CreatedAt.Equal(tasks[j].CreatedAt) {
+			// Tie-break by ID: callers collect from a map, so without this
+			// the order of items created at the same instant would change
+			// from one invocation to the next.
+			return tasks[i].ID < tasks[j].ID
+		}
 		return tasks[i].CreatedAt.Before(tasks[j].CreatedAt)
 	})
 }
